@@ -33,6 +33,14 @@ SETS = [
       'stdout << "M1:" << vx << newline;', 'stdout << "M2:" << vy << newline;', 'stdout << "M3:" << vz << newline;'],
      [(0, 3), (1, 4), (2, 5), (3, 4), (4, 5)]),     # markers keep their order; definitions are independent
 ]
+# include files used by the last set: two forms include files that both include a third one (included once per compilation)
+INCFILES = {
+    'vcommon.as': 'vcnt := vcnt + 1;\nstdout << "M4:" << vcnt << newline;\n',
+    'vparta.as': '#include "vcommon.as"\nstdout << "M1:" << vcnt + 10 << newline;\n',
+    'vpartb.as': '#include "vcommon.as"\nstdout << "M2:" << vcnt + 20 << newline;\n',
+}
+SETS.append((['vcnt: MachineInteger := 0;', '#include "vparta.as"', 'stdout << "M5:" << vcnt << newline;', '#include "vpartb.as"', 'stdout << "M3:" << vcnt << newline;',
+              '#include "vparta.as"', 'stdout << "M6:" << vcnt << newline;'], None))
 BAD = ['vb: MachineInteger := "str";',
        'vq(n: MachineInteger): MachineInteger == n + undefinedThing;',
        'stdout << "MX:" << vnone 3 << newline;',
@@ -65,6 +73,9 @@ def main(tier):
     b = ck.build('aldor', 'foam', 'libaldor')
     tc = TC(b)
 
+    for fn, txt in INCFILES.items():
+        write('%s/%s' % (ck.work, fn), txt)
+
     def session(forms):
         inp = ('\n'.join(HEAD + forms + ['#quit']) + '\n').encode()
         r = tc.aldor(['-Gloop'], ck.work, timeout=60, stdin=inp)
@@ -73,6 +84,8 @@ def main(tier):
 
     def batch(forms, name):
         d = mkdir('%s/b-%s' % (ck.work, name))
+        for fn, txt in INCFILES.items():
+            write('%s/%s' % (d, fn), txt)
         src = write(d + '/b.as', '\n'.join(HEAD + forms) + '\n')
         r = tc.interp(src, ('-Q1',), d)
         return [l for l in re.findall(r'M\d:[^\n]*', r.text())], r
